@@ -46,6 +46,7 @@ type Request struct {
 	doneCh       chan struct{}
 	processMutex sync.Mutex
 	isProcessed  bool
+	expired      bool // set under DelayedPriorityQueue.mutex when the TTL case won
 }
 
 func NewRequest(id string, priority float64, clock clock.Clock) *Request {
@@ -53,7 +54,7 @@ func NewRequest(id string, priority float64, clock clock.Clock) *Request {
 		ID:           id,
 		priority:     priority,
 		timestamp:    clock.Now(),
-		doneCh:       make(chan struct{}),
+		doneCh:       make(chan struct{}, 1),
 		processMutex: sync.Mutex{},
 		isProcessed:  false,
 	}
